@@ -586,6 +586,24 @@ MATCHERS = {
 }
 
 
+def directed_out_of_range(rng):
+    """in every run whatever the seed: sequences ending in the run [n-1, n] (and [n], [k, n+1], the integers n and
+    -n-1) on an axis without first stage, read per run (short) and densely, ndarray and HDF5 sources, with and
+    without another indexed axis"""
+    out = []
+    for src in ('np', 'h5'):
+        for n in (3, 10):
+            for lst in ([n - 1, n], [0, n - 1, n], [n], [1, n + 1], list(range(n + 1))):
+                for shape, k2 in (([n], [('l', lst)]), ([n, 4], [('l', lst), ('s', 1, 3, None)]),
+                                  ([2, n], [('i', 1), ('l', lst)])):
+                    out.append(dict(kind='single', src=src, sdtype='i8', shape=shape, k1=[], k2=k2, transforms=[],
+                                    arr=[rng.random() < 0.5 for _ in range(16)]))
+            for v in (n, -n - 1):
+                out.append(dict(kind='single', src=src, sdtype='i8', shape=[n, 2], k1=[], k2=[('i', v)], transforms=[],
+                                arr=[False] * 16))
+    return out
+
+
 def corpus_cases():
     d = os.path.join(common.VERIF, 'corpus', 'C05')
     out = []
@@ -599,6 +617,7 @@ def run(ctx):
     ctx.matchers.update(MATCHERS)
     build = common.build_and_audit('C05', ctx.tier)
     cases = corpus_cases()
+    cases += directed_out_of_range(ctx.rng)
     cases += [gen_single(ctx.rng) for _ in range(ctx.q(1000, 40000))]
     cases += [gen_concat(ctx.rng) for _ in range(ctx.q(400, 15000))]
     bad = evaluate(ctx, cases)
